@@ -555,6 +555,11 @@ impl<'a> Http2Parser<'a> {
         let stream_frames: Vec<&Http2Frame> =
             frames.iter().filter(|f| f.stream_id == stream_id).collect();
 
+        // Every message parsed here is the first header block of its connection direction, so it
+        // must be decoded against a fresh HPACK dynamic table: state left behind by a previously
+        // parsed (possibly unrelated or hostile) connection must not leak into this one.
+        *self.hpack_decoder.borrow_mut() = Decoder::new();
+
         for frame in stream_frames {
             match frame.frame_type {
                 Http2FrameType::Headers | Http2FrameType::Continuation => {
